@@ -17,6 +17,8 @@ use std::{
 enum St {
     Ready,
     Blocked(usize),
+    /// waiting on a condition variable
+    CondWait(usize),
     Finished,
 }
 
@@ -71,7 +73,7 @@ impl Sched {
     fn pick(inner: &mut Inner, kind: &'static str) {
         let (enabled, running_enabled) = Self::enabled(inner);
         if enabled.is_empty() {
-            if inner.st.iter().any(|s| matches!(s, St::Blocked(_))) {
+            if inner.st.iter().any(|s| matches!(s, St::Blocked(_) | St::CondWait(_))) {
                 inner.deadlock = true;
                 inner.aborted = Some("deadlock: every unfinished thread is blocked".into());
             }
@@ -141,6 +143,32 @@ impl Sched {
         }
     }
 
+    fn cond_wait(&self, tid: usize, cond: usize) {
+        {
+            let mut g = self.inner.lock().unwrap();
+            if g.aborted.is_none() {
+                g.st[tid] = St::CondWait(cond);
+                Self::pick(&mut g, "cond-wait");
+            }
+            self.cv.notify_all();
+        }
+        self.wait_turn(tid);
+    }
+
+    fn cond_notify(&self, cond: usize) {
+        let mut g = self.inner.lock().unwrap();
+        if let Some(s) = g.st.iter_mut().find(|s| **s == St::CondWait(cond)) {
+            *s = St::Ready;
+        }
+    }
+
+    /// a thread spawned by the code under test: known to the scheduler from the moment of the spawn
+    fn add_thread(&self) -> usize {
+        let mut g = self.inner.lock().unwrap();
+        g.st.push(St::Ready);
+        g.st.len() - 1
+    }
+
     fn finish(&self, tid: usize) {
         let mut g = self.inner.lock().unwrap();
         g.st[tid] = St::Finished;
@@ -166,6 +194,22 @@ impl ThreadAgent for Agent {
     fn acquired(&self, _id: usize) {}
     fn released(&self, id: usize) {
         self.sched.release(id);
+    }
+    fn cond_wait(&self, cond: usize) {
+        self.sched.cond_wait(self.tid, cond);
+    }
+    fn cond_notify(&self, cond: usize) {
+        self.sched.cond_notify(cond);
+    }
+    fn create_child(&self) -> Option<Arc<dyn ThreadAgent>> {
+        let tid = self.sched.add_thread();
+        Some(Arc::new(Agent { sched: self.sched.clone(), tid }))
+    }
+    fn start(&self) {
+        self.sched.wait_turn(self.tid);
+    }
+    fn end(&self) {
+        self.sched.finish(self.tid);
     }
 }
 
@@ -196,6 +240,7 @@ impl Execution {
 pub fn run_schedule(bodies: Vec<Box<dyn FnOnce() + Send + 'static>>, prefix: &[usize], watchdog: Duration) -> Execution {
     hooks::ensure_installed();
     let n = bodies.len();
+    let _ = n;
     let sched = Arc::new(Sched {
         inner: Mutex::new(Inner { st: vec![St::Ready; n], current: None, running: None, prefix: prefix.to_vec(), points: vec![], aborted: None, deadlock: false, finished: 0 }),
         cv: Condvar::new(),
@@ -229,7 +274,7 @@ pub fn run_schedule(bodies: Vec<Box<dyn FnOnce() + Send + 'static>>, prefix: &[u
     let start = Instant::now();
     let mut g = sched.inner.lock().unwrap();
     loop {
-        if g.finished == n || g.aborted.is_some() {
+        if g.finished == g.st.len() || g.aborted.is_some() {
             break;
         }
         let left = watchdog.checked_sub(start.elapsed());
